@@ -50,7 +50,7 @@ class Parse(ProducerContract):
     def site_keys(self, sites):
         """the yields of parse() by what is awaited / handed on (arms of the length and payload branches may be swapped)"""
         out, idents = [], 0
-        for k, src, stmt in sites:
+        for k, src, stmt, handler in sites:
             if 'read_until(' in src:
                 n = 0
             elif 'unpack16' in stmt:
